@@ -2,8 +2,9 @@
   Driver handler `rdr.*`: the slice-level reader (`Model/ReaderGo.lean`).
     rdr.dec  <hex>         UnmarshalTTLV into ttlv.Value, 64-bit int, cap = len
     rdr.decj <hex> <hex>   the same with the second byte string lying between len and cap
-    rdr.dec32 <hex>        32-bit int, the reader as it is      (information; not compared by an engine)
-    rdr.dec32w <hex>       32-bit int, `validate` comparing in 64 bits (the proposed repair)
+    rdr.dec32 <hex>        32-bit int, the reader before the repair (information; not compared by an engine)
+    rdr.dec32w <hex>       32-bit int, `validate` comparing in 64 bits (the reader since the repair e776a13)
+    rdr.cls32w <hex>       the same, outcome class only: compared with the library built for GOARCH=386 (hostile/arch32)
 -/
 import Driver.Common
 import KmipModel.Model.ReaderGo
@@ -35,6 +36,15 @@ def handleReaderGo (cmd arg : String) : Option String :=
   | "rdr.dec32w" => some <|
     match bytesOfHexFast arg with
     | some bs => rdrRun { intBits := 32, wide := true } bs []
+    | none => "bad-op"
+  | "rdr.cls32w" => some <|
+    -- outcome class only (what the GOARCH=386 probe of the hostile engine reports): the current reader on 32 bits
+    match bytesOfHexFast arg with
+    | some bs =>
+      match G.unmarshalValue { intBits := 32, wide := true } { vis := bs, rest := [] } with
+      | .ok _ => "ok"
+      | .err _ => "err"
+      | .panic _ => "panic"
     | none => "bad-op"
   | _ => none
 
